@@ -29,7 +29,8 @@ impl Gen {
     pub fn pick<'a, T>(&mut self, xs: &'a [T]) -> &'a T {
         &xs[self.below(xs.len() as u64) as usize]
     }
-    /// collection sizes: small, biased to the boundaries 0/1/2
+    /// collection sizes: small, biased to the boundaries 0/1/2; at the top level occasionally one
+    /// of the sizes at which buffering strategies change (4096-byte capacity hints, 64 KiB)
     pub fn size(&mut self, depth: u32) -> usize {
         let cap = match depth {
             0 => 9,
@@ -37,6 +38,14 @@ impl Gen {
             2 => 3,
             _ => 2,
         };
+        if depth == 0 {
+            if let Some(n) = FORCE_BIG.with(|f| f.borrow_mut().take()) {
+                return n;
+            }
+        }
+        if depth == 0 && self.below(48) == 0 {
+            return *self.pick(&[255usize, 256, 257, 1023, 1024, 4095, 4096, 4097, 5000, 8192, 8193, 70001]);
+        }
         match self.below(8) {
             0 => 0,
             1 => 1,
@@ -53,6 +62,15 @@ impl Gen {
     pub fn fork(&mut self) -> Gen {
         Gen::new(self.next())
     }
+}
+
+thread_local! {
+    static FORCE_BIG: std::cell::RefCell<Option<usize>> = std::cell::RefCell::new(None);
+}
+/// the next top-level collection size is `n` (so that every type meets the sizes at which
+/// buffering strategies change, not only the ones the dice happen to pick)
+pub fn force_big(n: Option<usize>) {
+    FORCE_BIG.with(|f| *f.borrow_mut() = n);
 }
 
 // ---- shape stream: decisions that change the representation but not the logical value
